@@ -36,7 +36,7 @@ TEXTS = {
     'k': ('kind-1', 'kind-1'),
     'pay': ('PAYROLL ACME', 'PAYROLL ACME'),
     'nv1': ('ALFA NEWSTORE', 'ALFA NEWSTORE'),
-    'nv2': ('PAYROLL EXTRA', 'PAYROLL EXTRA'),
+    'nv2': ('PAYROLL  EXTRA', 'PAYROLL  EXTRA'),      # a padded export: TWO blanks inside (a description is matched as it stands)
     'nv3': ('SOMETHING ELSE 9', 'SOMETHING ELSE 9'),
     'nv4': ('ALFA REFUND', 'ALFA REFUND'),
     # wallet-prefixed descriptions (a budget may strip the prefix with a field transform before rules are matched)
